@@ -26,6 +26,8 @@ struct Collected {
 struct MockUp {
     max: Option<u64>,
     chunked: bool,
+    /// the provider starts reading the first request body only after this pause (back-pressure on the producer)
+    stall_ms: u64,
     state: Arc<Mutex<Collected>>,
 }
 
@@ -52,6 +54,9 @@ impl UploadProvider for MockUp {
         for result in chunk_streams.iter() {
             match result {
                 Ok(ChunkStream::Stream(offset, rx)) => {
+                    if offset == 0 && self.stall_ms > 0 {
+                        std::thread::sleep(std::time::Duration::from_millis(self.stall_ms));
+                    }
                     let body: Body = rx.into();
                     let mut body: reqwest::blocking::Body = body.into();
                     let bytes = body.buffer().map_err(|e| format!("body: {}", e))?.to_vec();
@@ -78,6 +83,7 @@ pub fn op_upbackup(arg: &Value) -> Result<Value, String> {
     let provider = MockUp {
         max: arg.get("max").and_then(|x| x.as_u64()),
         chunked: arg.get("chunked").and_then(|x| x.as_bool()).unwrap_or(false),
+        stall_ms: arg.get("stall_ms").and_then(|x| x.as_u64()).unwrap_or(0),
         state: state.clone(),
     };
     take_logs();
